@@ -132,6 +132,21 @@ fn check_positions(input: &str, chars: &[char], table: &[(usize, usize)], p: &Pa
             if sp.start.index <= sp.end.index && sp.end.index <= n {
                 match style {
                     ScalarStyle::Plain => {
+                        if v == "~" && sp.start.index < sp.end.index && sp.start.line == sp.end.line {
+                            // `~` is either written in the input or synthesized for an omitted node; a
+                            // synthesized one has no text, so only an empty span (what most layouts get) or a
+                            // span over a literal `~` satisfies the rule
+                            let slice: String = chars[sp.start.index..sp.end.index].iter().collect();
+                            stats.cnt("tilde_spans_checked", 1);
+                            if slice != "~" {
+                                viol(
+                                    stats,
+                                    "C12/scalar/plain-span-text/omitted-node-span-covers-following-token".to_string(),
+                                    format!("{cfg}: the plain scalar \"~\" delivered for an omitted node has the non-empty span {} covering {slice:?}", fmt_span(sp)),
+                                    case_json(input, vec![("config", J::s(cfg))]),
+                                );
+                            }
+                        }
                         if !v.is_empty() && v != "~" && sp.start.line == sp.end.line {
                             let slice: String = chars[sp.start.index..sp.end.index].iter().collect();
                             stats.cnt("plain_spans_checked", 1);
